@@ -13,7 +13,7 @@ import (
 )
 
 func init() {
-	register("C09", "Decides: (R1) the rolling-update planner stores Result.PodsToCreate only as candidates[:k] with k <= the creation result of the limits function, which is >= 0 and <= max(0, MaxPodCreation) on every return, and MaxPodCreation is filled from the ramp function; (R2) every return of the ramp function is <= max(0, *MaxParallelPodCreation) and <= a ramp term whose polynomial normal form over {increase, slots} is coefficient-wise <= increase + increase*slots, i.e. (1 + slots)*increase; (R3) operand roles of the ramp: increase = GetValueFromIntOrPercent(SlowStartAdditiveIncrease, number of targeted nodes, round up), slots = (now - start) / SlowStartIntervalDuration with now the sync's clock value and start the result of the start-time function, which returns either now or the LastTransitionTime of the replica set's Active condition and the latter only when that condition is True; (R4) deletions per sync <= max(0, MaxUnavailablePod) (same checks as C03.R1/R5) and the MaxUnavailablePod input is exactly GetValueFromIntOrPercent(RollingUpdate.MaxUnavailable, number of targeted nodes, round up), directly or through a helper returning it; (R5) in the replica-set Reconcile every call that can write pods is reachable only through the spacing test (LastFullSync condition absent, or not LastUpdateTime(LastFullSync of the replica set just read) + owner.Spec.Strategy.ReconcileFrequency after the sync's clock value); (R6) from every such call, every path to a return passes the update of the LastFullSync condition (sync's clock value, status True, supportLastUpdate=true) and then the status write of the same status object; the condition updater stores that time as LastUpdateTime; (R7) where a pod-writing call of the Reconcile is guarded by comparing the time since the LastUpdateTime of the condition that records its previous batch with a period, the call is on the side where at least the period has elapsed (nothing is required if no such throttle exists).", runC09)
+	register("C09", "Decides: (R1) the rolling-update planner stores Result.PodsToCreate only as candidates[:k] with k <= the creation result of the limits function, which is >= 0 and <= max(0, MaxPodCreation) on every return, and MaxPodCreation is filled from the ramp function; (R2) every return of the ramp function is <= max(0, *MaxParallelPodCreation) and <= a ramp term whose polynomial normal form over {increase, slots} is coefficient-wise <= increase + increase*slots, i.e. (1 + slots)*increase; (R3) operand roles of the ramp: increase = GetValueFromIntOrPercent(SlowStartAdditiveIncrease, number of targeted nodes, round up), slots = (now - start) / SlowStartIntervalDuration with now the sync's clock value and start the result of the start-time function, which returns either now or the LastTransitionTime of the replica set's Active condition and the latter only when that condition is True; (R4) deletions per sync <= max(0, MaxUnavailablePod) (same checks as C03.R1/R5) and the MaxUnavailablePod input is exactly GetValueFromIntOrPercent(RollingUpdate.MaxUnavailable, number of targeted nodes, round up), directly or through a helper returning it; (R5) in the replica-set Reconcile every call that can write pods is reachable only through the spacing test (LastFullSync condition absent, or not LastUpdateTime(LastFullSync of the replica set just read) + owner.Spec.Strategy.ReconcileFrequency after the sync's clock value); (R6) from every such call, every path to a return passes the update of the LastFullSync condition (sync's clock value, status True, supportLastUpdate=true) and then the status write of the same status object; the condition updater stores that time as LastUpdateTime.", runC09)
 }
 
 const (
@@ -1046,7 +1046,7 @@ func c09Updater(r *Run) {
 // least the period has elapsed. (The throttle is a second line of defence behind the LastFullSync test;
 // inverted, it lets a batch run only within the period after the previous one and never afterwards.)
 // Nothing is required when no such throttle exists.
-func c09BatchThrottles(r *Run) {
+func c09BatchThrottles(r *Run, rule string) {
 	rec := r.Prog.Method(pkgERS, "Reconciler", "Reconcile")
 	if rec == nil {
 		return
@@ -1138,7 +1138,7 @@ func c09BatchThrottles(r *Run) {
 					good = true
 				}
 			}
-			r.Check("C09.R7", "throttle on condition "+typ+" guards call to "+shortFunc(staticCallee(&op.Call)), r.Prog.Pos(bo.Pos()), shortFunc(rec),
+			r.Check(rule, "throttle on condition "+typ+" guards call to "+shortFunc(staticCallee(&op.Call)), r.Prog.Pos(bo.Pos()), shortFunc(rec),
 				"a pod-writing call guarded by `time since the previous batch` versus a period runs on the side where at least the period has elapsed", good,
 				map[bool]string{true: "", false: "the call is reached only when LESS than (or at most) the period has elapsed since the LastUpdateTime of condition " + typ + ": the throttle is inverted"}[good])
 		}
@@ -1151,7 +1151,6 @@ func runC09(r *Run) {
 	r.RuleDoc("C09.R3", "operand roles of the ramp: increase, elapsed time, interval, ramp origin")
 	r.RuleDoc("C09.R4", "deletions per sync <= max(0, MaxUnavailablePod)")
 	r.RuleDoc("C09.R5", "every pod-writing call of the replica-set Reconcile is behind the spacing test")
-	r.RuleDoc("C09.R7", "per-batch throttles (time since the PodDeletion / PodCreation condition versus a period) let the batch run on the elapsed side")
 	r.RuleDoc("C09.R6", "LastFullSync is refreshed with the sync's clock value and the status written on every path after a pod-writing call")
 	r.Floor("C09.R1", 4)
 	r.Floor("C09.R2", 4)
@@ -1187,5 +1186,6 @@ func runC09(r *Run) {
 		relaxFloors(r, "C09.R4")
 	}
 	c09Spacing(r)
-	c09BatchThrottles(r)
+	// the per-batch throttles are redundant for spacing behind the LastFullSync gate: their polarity is a
+	// progress condition and is reported under C02 (rules_xref.go: C02.Q12)
 }
